@@ -125,11 +125,38 @@ def explore(ctx):
         ctx.count(f'maximp={sc["cfg"]["maximp"]}:skipn={sc["cfg"]["skipn"]}:gate={"y" if sc.get("start_with_key") else "n"}')
         if cut:
             ctx.nontriv(repr((sc['files'], sc['passes'], sc['rules'], sc['cfg'], sc['sched'], sc.get('start_with_key'))))
+    # --start-with-pass through the whole reduction (CVise.reduce), with and without --skip-initial-passes: nothing runs
+    # before the named pass
+    for skip_initial in (False, True):
+        for gate in (2, 3):
+            for nn in (1, 2):
+                mk = lambda k, ch: {'key': k, 'ops': [('delch', ch)], 'aos': 1, 'maxt': None, 'newfix': None}
+                sc = {'files': [('f0.c', 'abcdx')], 'rules': [([], 0)],
+                      'group': {'first': [mk(9, 'x')], 'main': [mk(1, 'a'), mk(2, 'b'), mk(3, 'c')], 'last': [mk(4, 'd')]},
+                      'cfg': {'N': nn, 'no_cache': True}, 'sched': [1] * 30, 'start_with_key': gate, 'skip_initial': skip_initial}
+                o = driver.run_scenario(sc, ctx.tmp, mode='reduce')
+                ctx.evaluations += 1
+                ctx.count('start-with-pass:reduce' + (':skip-initial' if skip_initial else ''))
+                if o.diverged or getattr(o, 'code', 0) != 0:
+                    continue
+                ctx.nontriv(('start-with-reduce', skip_initial, gate, nn))
+                before_gate = []
+                for (name, joint, _l) in o.after_pass:
+                    if name == f'ScriptPass::{gate}':
+                        break
+                    before_gate.append((name, joint))
+                changed = [n_ for n_, j_ in before_gate if j_ != o.disk0]
+                if changed:
+                    ctx.violation('start-with-gate', f'--start-with-pass ScriptPass::{gate}' + (' with --skip-initial-passes' if skip_initial else '') +
+                                  f': {changed[0]} ran and changed the file before the named pass was reached', {'scenario': sc, 'mode': 'reduce'})
     ctx.sample({'scenario': {k: each[0][2].get(k) for k in ('files', 'passes', 'rules', 'cfg', 'sched', 'start_with_key')}, 'impl_output': each[0][1][:40]})
     correspond(ctx, 'c16', each)
 
 
 def replay(ctx, payload):
+    if payload['replay'].get('mode') == 'reduce':
+        explore(ctx)
+        return
     sc = payload['replay']['scenario']
     o = driver.run_scenario(sc, ctx.tmp)
     print('replay output', o.out)
